@@ -147,7 +147,46 @@ func c14LongHistory(c *sim.Ctx) *sim.Violation {
 	return nil
 }
 
+// c14Huge: one PUBLISH body whose payload is larger than any size at which a
+// decoder might decide that copying is no longer worth it (72 MiB; thorough:
+// 160 MiB), decoded with UnmarshalBinary from the caller's buffer, which is then
+// overwritten. The payload must still be what the buffer held.
+func c14Huge(c *sim.Ctx) *sim.Violation {
+	n := 72<<20 + 1 + c.T.Int(4096)
+	if c.Thorough {
+		n = 160<<20 + 1 + c.T.Int(4096)
+	}
+	pat := func(i int) byte { return byte(i*7 + i>>9) }
+	body := make([]byte, 0, 4+n+64) // spare capacity behind the body, as a read buffer has
+	body = append(body, 0, 1, 't', 0)
+	for i := 0; i < n; i++ {
+		body = append(body, pat(i))
+	}
+	p := mq.NewPublish()
+	var err error
+	if pi := sim.Guard(func() { err = p.UnmarshalBinary(body) }); pi != nil || err != nil {
+		return sim.V("C14/PUBLISH/huge-payload/decode", "PUBLISH body with a payload of %d bytes: err=%v panic=%v", n, err, pi)
+	}
+	for i := range body {
+		body[i] = 0xEE
+	}
+	got := p.Payload()
+	if len(got) != n {
+		return sim.V("C14/PUBLISH/aliases-input-buffer/Payload", "payload of %d bytes decoded with UnmarshalBinary; Payload() has %d bytes", n, len(got))
+	}
+	for i, b := range got {
+		if b != pat(i) {
+			return sim.V("C14/PUBLISH/aliases-input-buffer/Payload", "PUBLISH with a payload of %d bytes decoded with UnmarshalBinary from the caller's buffer; after the buffer was overwritten with 0xEE, Payload()[%d] is %#x (was %#x)", n, i, b, pat(i))
+		}
+	}
+	c.Count(fmt.Sprintf("probe.payload-of-%d-MiB-decoded-then-buffer-overwritten", n>>20))
+	return nil
+}
+
 func runC14(c *sim.Ctx) *sim.Violation {
+	if c.Run == 5 {
+		return c14Huge(c)
+	}
 	t := c.T
 	if c.Run%200 == 3 {
 		return c14LongHistory(c)
